@@ -1,8 +1,8 @@
 (* C15 - verdicts do not depend on how the profile is written down.
    Statements only; proofs in Proofs/YamlProofs.v, Proofs/RulesProofs.v, Proofs/GraphEquivProofs.v. *)
-From Coq Require Import Permutation.
+From Coq Require Import Permutation Relations.
 From ACV Require Import Base.Strs Model.Graph Model.PathGrammar Model.Dnf Model.Rules Model.Report Model.Engine Model.Yaml Model.SharedRef Model.TemplatesRef.
-From ACV Require Import Model.ProfileParser Proofs.RulesProofs Proofs.YamlProofs Proofs.ParserProofs Proofs.ParserCongruence Model.YamlRespell Proofs.RespellProofs Extracted.SharedFacts Extracted.Templates.
+From ACV Require Import Model.ProfileParser Proofs.RulesProofs Proofs.YamlProofs Proofs.ParserProofs Proofs.ParserCongruence Model.YamlRespell Proofs.RespellProofs Proofs.RewriteClosure Extracted.SharedFacts Extracted.Templates.
 Local Open Scope list_scope.
 
 (* ties: mapping keys are looked up among the KEYS only and listed in document order; the prefix table is the
@@ -76,6 +76,12 @@ Theorem C15_respelled_bodies_parse_alike : forall ctx ctx' fp fr y y', respell_b
   parse_expr ctx fp y = parse_expr ctx' fp y'.
 Proof. exact respell_parse_expr. Qed.
 
+(* C15 as one statement: any finite sequence of rewriting steps - each a reordering (keys of any mapping, free lists, at
+   any depth) or a respelling of compact IRIs - leaves the set of reported (level, validation, focus) triples unchanged
+   on every graph (or neither text is a profile the model accepts) *)
+Theorem C15 : forall defaults g doc doc', clos_refl_trans ynode (step defaults) doc doc' -> same_verdict defaults g doc doc'.
+Proof. exact rewritings_same_verdict. Qed.
+
 Theorem C15_level_lists : forall g p p' l r,
   p_name p = p_name p' -> NoDup (map v_name (p_defs p)) -> Permutation (p_defs p) (p_defs p') -> Permutation (p_listed p) (p_listed p') ->
   (In r (level_results g p l) <-> In r (level_results g p' l)).
@@ -113,5 +119,6 @@ Print Assumptions C15_rewriting_at_any_depth.
 Print Assumptions C15_rewriting_reflexive.
 Print Assumptions C15_prefix_respelling.
 Print Assumptions C15_respelled_bodies_parse_alike.
+Print Assumptions C15.
 Print Assumptions C15_prefix_rename.
 Print Assumptions C15_prefix_alias.
